@@ -288,10 +288,23 @@ TRANSPARENT = {
 
 # `&mut place` calls whose effect on the place is a plain assignment
 _RESET = {
-    "std::option::Option::take": lambda args: ("agg", "std::option::Option", "None", ()),
-    "std::mem::take": lambda args: ("call", "std::default::Default::default", ()),
-    "std::mem::replace": lambda args: args[0] if args else ("unknown",),
+    "std::option::Option::take": lambda args, targs=(): ("agg", "std::option::Option", "None", ()),
+    "std::mem::take": lambda args, targs=(): _default_of(targs[0] if targs else None),
+    "std::mem::replace": lambda args, targs=(): args[0] if args else ("unknown",),
 }
+
+
+def _default_of(ty):
+    """<ty as Default>::default() as a term: zero for the numeric types"""
+    if ty in ("cosmwasm_std::Uint128",):
+        return ("call", "cosmwasm_std::Uint128::zero", ())
+    if ty in ("u8", "u16", "u32", "u64", "u128", "usize", "i32", "i64"):
+        return ("const", "int", 0)
+    if ty == "bool":
+        return ("const", "bool", False)
+    if ty and ty.startswith(("std::option::Option<", "core::option::Option<")):
+        return ("agg", "std::option::Option", "None", ())
+    return ("call", "std::default::Default::default", ())
 
 UNWRAP_OK = {"std::result::Result::unwrap", "std::result::Result::expect"}
 UNWRAP_SOME = {"std::option::Option::unwrap", "std::option::Option::expect"}
@@ -771,7 +784,7 @@ class Terms:
             nu = len([k for k in uk_full if not k.startswith("@")])
             reset = _RESET.get(nm)
             if reset is not None:
-                newv = reset(args)
+                newv = reset(args, tuple(t.get("targs") or ()))
                 if len(dk) > nu:
                     sub = tuple(x[1:] for x in dk[nu:] if x.startswith("."))
                     prev = self.place({"l": l, "p": uproj, "s": "_%d" % l}, dbb, didx)
